@@ -29,6 +29,8 @@ def main():
     if not os.path.isdir(SC):
         sh(f"git -C /repo worktree add -f --detach {SC} HEAD")
     sh(f"git -C {SC} checkout -- . && git -C {SC} clean -fdq")
+    head = sh("git -C /repo rev-parse HEAD").stdout.strip()
+    sh(f"git -C {SC} checkout -q --detach {head}")   # the seed is applied on top of /repo's current HEAD (fix: commits included)
     r = sh(f"git -C {SC} apply {sdir}/patch.diff")
     if r.returncode != 0:
         print("patch does not apply:", r.stdout)
